@@ -182,7 +182,7 @@ for Atomic<'a, ItemType, BUFFER_SIZE, MAX_STREAMS> {
                 // wake the streams, if needed
                 let len_after = len_after.get();
                 if len_after <= MAX_STREAMS as u32 {
-                    self.streams_manager.wake_stream(len_after % MAX_STREAMS as u32);
+                    self.streams_manager.wake_stream(len_after - 1);
                 }
                 true
             }).unwrap_or(false)
